@@ -26,15 +26,19 @@ FORMULAS = {
 }
 S = {'A1': 1, 'A2': 2, 'B1': 3, 'B2': 4, 'C1': 7, 'A3': 9}
 T = {'A1': 10, 'A2': 20, 'B1': 30, 'B2': 40, 'D1': '=SUM(A1:B2)', 'D2': '=COUNTBLANK(A1:B2)', 'D3': '=MAX(A1:B2)'}
+# formula cells live in rows 1-2 (columns H..), so that the used range of sheet S stays 3 rows: areas like A1:B12 really reach below it
+from openpyxl.utils import get_column_letter as _gcl
+ADDR = {f'F{i}': f'{_gcl(8 + (i - 1) // 2)}{1 + (i - 1) % 2}' for i in range(1, len(FORMULAS) + 1)}
+ADDR.update({'D1': 'D1', 'D2': 'D2', 'D3': 'D3'})
 TRANSLATE_ERRORS = []
 K = {}
 for _c, _f in FORMULAS.items():
     try:
-        K[_c] = build.load_class(build.translate([('S', dict(S, **{_c: _f})), ('T', dict(T))]), '_k' + _c)
+        K[_c] = build.load_class(build.translate([('S', dict(S, **{ADDR[_c]: _f})), ('T', dict(T))]), '_k' + _c)
     except Exception as _e:
         TRANSLATE_ERRORS.append((_f, f'{type(_e).__name__}: {_e}'))
 try:
-    KALL = build.load_class(build.translate([('S', dict(S, **FORMULAS)), ('T', dict(T))]), '_kall') if not TRANSLATE_ERRORS else None
+    KALL = build.load_class(build.translate([('S', dict(S, **{ADDR[c]: f for c, f in FORMULAS.items()})), ('T', dict(T))]), '_kall') if not TRANSLATE_ERRORS else None
 except Exception as _e:
     KALL = None
     TRANSLATE_ERRORS.append(('all aggregate formulas in one workbook', f'{type(_e).__name__}: {_e}'))
@@ -55,7 +59,7 @@ def ev(cell, sheet=0, spy_average=False, **ov):
         # AVERAGE is decided in two steps (symbolic division makes the solver crawl): the emitted code must hand exactly the numeric
         # cells to _average (spied here), and _average itself is checked separately on small integer lists
         inst._average = lambda lst: ('AVG', list(lst))
-    return inst.exec_function_in(build.uid(sheet, cell))
+    return inst.exec_function_in(build.uid(sheet, ADDR[cell]))
 
 def num(v):
     return type(v) is int or type(v) is float
